@@ -49,7 +49,7 @@ def gen_spec(seed: int, idx: int, tier: str) -> tuple[dict, list[dict], random.R
         kinds = []
     else:
         kinds = [k for k in FAULT_KINDS if rng.random() < 0.3]
-    spec["faults"] = {"kinds": kinds, "p_proc": rng.choice([0.3, 0.6, 1.0]), "p_second": 0.25, "horizon": rng.choice([20, 50, 70])}
+    spec["faults"] = {"kinds": kinds, "p_proc": rng.choice([0.3, 0.6, 1.0]), "p_second": 0.25, "horizon": rng.choice([15, 30, 48])}
     return spec, inputs, rng
 
 
